@@ -100,7 +100,7 @@ class C03(Check):
                 ok += 1
                 if num and not math.isfinite(val):
                     viol.append(dict(key=l, got=ga[0], expected='finite value', what='non-finite result without an error'))
-                positive = op in ('cp', 'nistn', 'nisti', 'radn', 'radi', 'z2s', 's2z', 'cget', 'ccopy', 'nistl', 'radl', 'clist', 'ri') or (op == 'cscp' and int(l.split(' ')[1]) < 13)
+                positive = op in ('cp', 'nistn', 'nisti', 'radn', 'radi', 'z2s', 's2z', 'cget', 'ccopy', 'nistl', 'radl', 'clist', 'ri', 'af') or (op == 'cfun' and int(l.split(' ')[1]) in (0, 4, 5)) or (op == 'cscp' and int(l.split(' ')[1]) < 13)
                 if positive and a['rc'] == 0:
                     viol.append(dict(key=l, got=ga[0], expected='a non-NULL object / non-zero value, or an error', what='0 / NULL returned without an error'))
             if b['e'] or b['rc'] != a['rc'] or b['v'] != a['v']:
